@@ -81,13 +81,21 @@ func c09rRun(t *testing.T, tape *simrt.Tape, o simwork.Opts) *simwork.Result {
 	for i := 0; i < n; i++ {
 		name := fmt.Sprintf("loop/%d", i)
 		req := &conformancev1.ClientCompatRequest{TestName: name, Host: "127.0.0.1", Port: uint32(1 + tape.Choose(60000, "port"))}
-		switch tape.Choose(4, "bulk") {
+		bulk := tape.Choose(10, "bulk")
+		if bulk == 9 {
+			// a message above 64 KiB (in both wire variants) with more messages behind it
+			req.ServerTlsCert = bytes.Repeat([]byte{0x7b, 0x7d, 0x0a, 0xff, 0x22}, 14000+tape.Choose(8000, "filler.big"))
+			res.Probes["message-above-64KiB"]++
+		}
+		switch bulk % 4 {
 		case 1:
 			req.RequestHeaders = []*conformancev1.Header{{Name: "x-filler", Value: []string{strings.Repeat("v", tape.Choose(300, "filler"))}}}
 		case 2:
 			req.RequestHeaders = []*conformancev1.Header{{Name: "x-filler", Value: []string{strings.Repeat("é{}\"\\n", tape.Choose(40, "filler"))}}}
 		case 3:
-			req.ServerTlsCert = bytes.Repeat([]byte{0x7b, 0x7d, 0x0a, 0xff}, tape.Choose(2000, "filler")) // braces and newlines inside a bytes field
+			if bulk != 9 {
+				req.ServerTlsCert = bytes.Repeat([]byte{0x7b, 0x7d, 0x0a, 0xff}, tape.Choose(2000, "filler")) // braces and newlines inside a bytes field
+			}
 		}
 		var one bytes.Buffer
 		if err := codec.NewEncoder(&one).Encode(req); err != nil {
